@@ -81,8 +81,11 @@ type failure struct {
 	Op    string `json:"op"`    // read | stored | write | truncate | flush | reopen | create
 	At    int    `json:"at"`    // index of the op after which it was seen (len(ops) = final phase)
 	Msg   string `json:"msg"`
-	// history features at the moment of the failure (for the signature)
+	// history features at the moment of the failure (descriptive only, not part of the signature)
 	Feat map[string]bool `json:"features"`
+	// listed defects whose byte-level re-simulation predicts exactly what was observed here and
+	// at every earlier observation of the sequence (empty: no listed defect explains it)
+	Explained []string `json:"explained_by"`
 }
 
 type mount struct {
@@ -212,6 +215,28 @@ func (m *mount) runSeq(spec seqSpec, name string, count bool) (fail *failure) {
 			_ = fh.Release(ctx, &fuse.ReleaseRequest{})
 		}
 	}()
+	// re-simulations of the mount layer, one per set of listed defects (sim.go); sims[0] has no
+	// defect switched on and must agree with the POSIX model
+	sims := []*sim{newSim(simSwitch{}), newSim(simSwitch{Stale: true}), newSim(simSwitch{TruncDirty: true}), newSim(simSwitch{Stale: true, TruncDirty: true})}
+	// in-memory buffer, "each" reads: once a read was made while the buffer's own upload may be in
+	// flight, which chunks a later read sees is a matter of timing until the handle is reopened
+	fuzzy := false
+	var snaps [][]byte // model states since the handle was opened (for the envelope of fuzzy reads)
+	keepSnaps := spec.Buffer == "memory" && spec.Reads == "each"
+	snap := func() {
+		if keepSnaps {
+			snaps = append(snaps, append([]byte{}, model...))
+		}
+	}
+	snap()
+	explain := func(pred func(*sim) bool) []string {
+		for _, sm := range sims[1:] {
+			if sm.ok && pred(sm) {
+				return sm.sw.names()
+			}
+		}
+		return nil
+	}
 	// unflushed extent beyond which a shrinking truncate would have to cut buffered data
 	dirtyEnd := int64(0)
 	dirtyStart := int64(0)
@@ -247,6 +272,9 @@ func (m *mount) runSeq(spec seqSpec, name string, count bool) (fail *failure) {
 				r.Count("reads_checked_with_unflushed_writes", 1)
 			}
 		}
+		if spec.Buffer == "memory" && autosave {
+			fuzzy = true
+		}
 		var f *failure
 		want := expect(off, n)
 		switch {
@@ -256,6 +284,32 @@ func (m *mount) runSeq(spec seqSpec, name string, count bool) (fail *failure) {
 			f = mk("read", "length-differs", fmt.Sprintf("read(%d,%d) with file size %d: %s", off, n, len(model), describeDiff(want, got)))
 		case !bytes.Equal(got, want):
 			f = mk("read", "data-differs", fmt.Sprintf("read(%d,%d) with file size %d: %s", off, n, len(model), describeDiff(want, got)))
+		}
+		if fuzzy {
+			if f != nil && err == nil && envelope(got, off, snaps) {
+				f.Explained = []string{"memory-upload-window"}
+			}
+		} else {
+			// a read error: the cached view may point at a chunk that has been replaced and deleted
+			staleBefore := sims[1].ok && sims[1].viewIsStale()
+			for i, sm := range sims {
+				p := sm.read(off, n)
+				was := sm.ok
+				sm.ok = sm.ok && err == nil && equalObs(p, got)
+				if i == 0 && was && f == nil && !sm.ok && count {
+					r.Count("sim_selfcheck_mismatch", 1)
+					r.Note("sim_selfcheck_example", fmt.Sprintf("%s %s at %d: read(%d,%d)", spec.Buffer, spec.opsString(), at, off, n))
+				}
+			}
+			if f != nil {
+				if err != nil {
+					if staleBefore {
+						f.Explained = []string{"stale-view"}
+					}
+				} else {
+					f.Explained = explain(func(*sim) bool { return true })
+				}
+			}
 		}
 		if hasChunks && !viewSet {
 			viewSet, viewVer = true, entryVer
@@ -292,13 +346,25 @@ func (m *mount) runSeq(spec seqSpec, name string, count bool) (fail *failure) {
 			}
 			r.Count("stored_chunks_total", int64(res.Chunks))
 		}
+		var f *failure
 		if res.Size != uint64(len(model)) {
-			return mk("stored", "size-differs", fmt.Sprintf("stored size %d (chunks %d), model %d", res.Size, res.Chunks, len(model)))
+			f = mk("stored", "size-differs", fmt.Sprintf("stored size %d (chunks %d), model %d", res.Size, res.Chunks, len(model)))
+		} else if !bytes.Equal(res.Data, model) {
+			f = mk("stored", "data-differs", fmt.Sprintf("%d chunks: %s", res.Chunks, describeDiff(model, res.Data)))
 		}
-		if !bytes.Equal(res.Data, model) {
-			return mk("stored", "data-differs", fmt.Sprintf("%d chunks: %s", res.Chunks, describeDiff(model, res.Data)))
+		for i, sm := range sims {
+			sz, data := sm.storedState()
+			was := sm.ok
+			sm.ok = sm.ok && uint64(sz) == res.Size && equalObs(data, res.Data)
+			if i == 0 && was && f == nil && !sm.ok && count {
+				r.Count("sim_selfcheck_mismatch", 1)
+				r.Note("sim_selfcheck_example", fmt.Sprintf("%s %s at %d: stored", spec.Buffer, spec.opsString(), at))
+			}
 		}
-		return nil
+		if f != nil {
+			f.Explained = explain(func(*sim) bool { return true })
+		}
+		return f
 	}
 	flush := func() *failure {
 		if err := fh.Flush(ctx, &fuse.FlushRequest{}); err != nil {
@@ -315,6 +381,9 @@ func (m *mount) runSeq(spec seqSpec, name string, count bool) (fail *failure) {
 			}
 		}
 		dirty, dirtyUpper, dirtyEnd, autosave = false, 0, 0, false
+		for _, sm := range sims {
+			sm.flush()
+		}
 		return checkStored()
 	}
 	reopen := func() *failure {
@@ -325,8 +394,13 @@ func (m *mount) runSeq(spec seqSpec, name string, count bool) (fail *failure) {
 		if err != nil {
 			return mk("reopen", "error", "lookup: "+err.Error())
 		}
+		for _, sm := range sims {
+			sm.ok = sm.ok && uint64(sm.attr) == lresp.Attr.Size
+		}
 		if lresp.Attr.Size != uint64(len(model)) {
-			return mk("reopen", "size-differs", fmt.Sprintf("lookup reports size %d, model %d", lresp.Attr.Size, len(model)))
+			f := mk("reopen", "size-differs", fmt.Sprintf("lookup reports size %d, model %d", lresp.Attr.Size, len(model)))
+			f.Explained = explain(func(*sim) bool { return true })
+			return f
 		}
 		file = n2.(*filesys.File)
 		h2, err := file.Open(ctx, &fuse.OpenRequest{Flags: fuse.OpenReadWrite}, &fuse.OpenResponse{})
@@ -340,6 +414,12 @@ func (m *mount) runSeq(spec seqSpec, name string, count bool) (fail *failure) {
 		}
 		viewSet = false
 		reopened = true
+		for _, sm := range sims {
+			sm.reopen()
+		}
+		fuzzy = false
+		snaps = nil
+		snap()
 		if count {
 			r.Count("reopens", 1)
 		}
@@ -368,6 +448,10 @@ func (m *mount) runSeq(spec seqSpec, name string, count bool) (fail *failure) {
 				entryVer++ // the size attribute grows with the write
 			}
 			copy(model[o.Off:], data)
+			for _, sm := range sims {
+				sm.write(o.Off, data)
+			}
+			snap()
 			if !dirty || o.Off < dirtyStart {
 				dirtyStart = o.Off
 			}
@@ -417,6 +501,10 @@ func (m *mount) runSeq(spec seqSpec, name string, count bool) (fail *failure) {
 			} else {
 				model = append(model, make([]byte, o.Size-int64(len(model)))...)
 			}
+			for _, sm := range sims {
+				sm.truncate(o.Size)
+			}
+			snap()
 			if count {
 				r.Count("truncates", 1)
 			}
@@ -466,14 +554,13 @@ func (m *mount) runSeq(spec seqSpec, name string, count bool) (fail *failure) {
 	return nil
 }
 
-// signature of a failure: what differed, through which observation, which buffer, and one
-// key per history feature that was true when it was seen — structured, no free text.
+// signature of a failure: what differed, through which observation, which buffer, and which
+// listed defects (if any) reproduce the observed bytes exactly in the re-simulation.
 func sigOf(spec seqSpec, f *failure) lib.Sig {
-	s := lib.Sig{"op": f.Op, "class": f.Class, "buffer": spec.Buffer}
-	for k, v := range f.Feat {
-		if v {
-			s[k] = "1"
-		}
+	s := lib.Sig{"op": f.Op, "class": f.Class, "buffer": spec.Buffer, "explained": "no"}
+	for _, d := range f.Explained {
+		s["explained"] = "yes"
+		s["by-"+d] = "1"
 	}
 	return s
 }
@@ -566,6 +653,7 @@ func randomSeqs(n, nops int, buffer, stratum string, base int, r *lib.Run) []seq
 	for i := 0; i < n; i++ {
 		var ops []op
 		size := int64(0)
+		unflushed := false
 		span := int64(5 * chunkLimit)
 		for j := 0; j < nops; j++ {
 			x := rng.Intn(100)
@@ -596,6 +684,7 @@ func randomSeqs(n, nops int, buffer, stratum string, base int, r *lib.Run) []seq
 					off = rng.Int63n(span)
 				}
 				ops = append(ops, op{K: "W", Off: off, Len: l})
+				unflushed = true
 				if off+int64(l) > size {
 					size = off + int64(l)
 				}
@@ -605,6 +694,7 @@ func randomSeqs(n, nops int, buffer, stratum string, base int, r *lib.Run) []seq
 			case x < 80:
 				if stratum == "wfc" {
 					ops = append(ops, op{K: "F"})
+					unflushed = false
 					continue
 				}
 				var s int64
@@ -620,12 +710,21 @@ func randomSeqs(n, nops int, buffer, stratum string, base int, r *lib.Run) []seq
 				default:
 					s = rng.Int63n(size + 1) // shrink
 				}
+				if buffer == "memory" && s < size && unflushed {
+					// in-memory buffer: a shrinking truncate is only issued on a flushed handle. What
+					// File.Setattr leaves behind in that buffer (listed defect, witnessed with the
+					// temp-file buffer) depends on which runs it has already handed to its uploader.
+					ops = append(ops, op{K: "F"})
+					unflushed = false
+				}
 				ops = append(ops, op{K: "T", Size: s})
 				size = s
 			case x < 95:
 				ops = append(ops, op{K: "F"})
+				unflushed = false
 			default:
 				ops = append(ops, op{K: "C"})
+				unflushed = false
 			}
 		}
 		reads := "safe"
